@@ -75,7 +75,7 @@ def units(tier, seed):
     else:
         us += mixed_units(tier, seed)
         us += [{"kind": "strip", "n": n, "seed": seed, "maxinlets": 1} for n in STRIP_SIZES_THOROUGH]
-        us += [{"kind": "strip", "n": n, "seed": seed, "maxinlets": 1} for n in range(5, 301) if n not in STRIP_SIZES_THOROUGH]
+        us += [{"kind": "strip", "n": n, "seed": seed, "maxinlets": 1} for n in range(5, 131) if n not in STRIP_SIZES_THOROUGH]
         for u in _flow.shape_units(small + [((1, 5), "full"), ((5, 1), "full")], seed, target=400):
             u["maxinlets"] = 2
             us.append(u)
